@@ -5,6 +5,7 @@
 // Program syntax (parameter string):  [I:<steps>|]<thread>|<thread>|…   steps separated by '.'
 //
 //	S<k> D<k> G<k> K C<k>     autocommit Set / Delete / Get / GetKeys / Create+Write+Write+Close
+//	E<k> F<k>                 Create with write sizes 5,1,3 / 2,0,4,0 (empty writes) and Close
 //	b<s><l>                   transaction slot s = Begin(level l: 0 RU, 1 RC, 2 RR, 3 SER)
 //	s<s><k> d<s><k> g<s><k> k<s> c<s> r<s>   Set / Delete / Get / GetKeys / Commit / Rollback through slot s
 //	X                         one garbage-collection period elapses (Sched -> Send -> worker -> DeleteOld)
@@ -54,7 +55,7 @@ func parseSteps(s string) []step {
 		}
 		st := step{kind: tok[0]}
 		switch tok[0] {
-		case 'S', 'D', 'G', 'C':
+		case 'S', 'D', 'G', 'C', 'E', 'F':
 			st.key = tok[1:]
 		case 'K', 'X':
 		case 'b':
@@ -141,6 +142,22 @@ type run struct {
 	lens map[int]int
 }
 
+//go:norace
+func (r *run) setLen(id, n int) {
+	if r.lens == nil {
+		r.lens = map[int]int{}
+	}
+	r.lens[id] = n
+}
+
+//go:norace
+func (r *run) lenOf(id int) int {
+	if n, ok := r.lens[id]; ok {
+		return n
+	}
+	return valLen
+}
+
 // valueID decodes the write id from a content produced by dbh.Content (length >= 3).
 func valueID(b []byte) int {
 	if len(b) < 3 {
@@ -168,14 +185,29 @@ func (r *run) exec(thread int, idx int, st step) {
 	case 'S', 's':
 		op.Kind = lin.Set
 		op.ObsErr = dbh.Class(store.Set(r.ctx, st.key, dbh.Content(id, valLen)))
-	case 'C':
+	case 'C', 'E', 'F':
 		op.Kind = lin.Set
+		split := []int{3, 5}
+		switch st.kind {
+		case 'E':
+			split = []int{5, 1, 3}
+		case 'F':
+			split = []int{2, 0, 4, 0}
+		}
+		n := 0
+		for _, x := range split {
+			n += x
+		}
+		r.setLen(id, n)
 		f, err := store.Create(r.ctx, st.key)
 		if err == nil {
-			c := dbh.Content(id, valLen)
-			_, err = f.Write(c[:3])
-			if err == nil {
-				_, err = f.Write(c[3:])
+			c := dbh.Content(id, n)
+			off := 0
+			for _, x := range split {
+				if err == nil {
+					_, err = f.Write(c[off : off+x])
+				}
+				off += x
 			}
 			cerr := f.Close()
 			if err == nil {
@@ -192,7 +224,7 @@ func (r *run) exec(thread int, idx int, st step) {
 		op.ObsErr = dbh.Class(err)
 		if err == nil {
 			op.ObsVal = valueID(b)
-			if !bytes.Equal(b, dbh.Content(op.ObsVal, valLen)) {
+			if !bytes.Equal(b, dbh.Content(op.ObsVal, r.lenOf(op.ObsVal))) {
 				op.ObsVal = -2 // partial or mixed content: matches no write
 			}
 		}
